@@ -315,7 +315,7 @@ def explore(acc: Acc, driver: str, setting, max_len: int, only_history=None, par
             step(hist, op)
     if part == 0:
         acc.states += len(histories)
-        acc.extra[f"max_depth_{driver}"] = max(acc.extra.get(f"max_depth_{driver}", 0), max(len(h) for h in histories))
+        acc.extra[f"shortest_history_lengths_summed_over_settings_{driver}"] += max(len(h) for h in histories)
     if setting == SETTINGS[7] and part == 0:
         longest = max(histories, key=len)
         acc.sample({"driver": driver, "setting": name, "history": [list(o) for o in longest]}, 1)
